@@ -101,12 +101,18 @@ def _has(node, kinds) -> bool:
 
 
 def _returns(stmts) -> List[ast.Return]:
+    """return statements of the function itself (those of nested defs / lambdas do not count)"""
     out = []
+
+    def walk(n):
+        if isinstance(n, ast.Return):
+            out.append(n)
+        for c in ast.iter_child_nodes(n):
+            if not isinstance(c, (ast.FunctionDef, ast.AsyncFunctionDef, ast.Lambda, ast.ClassDef)):
+                walk(c)
     for s in stmts:
-        for n in ast.walk(s):
-            if isinstance(n, ast.Return):
-                out.append(n)
-            # returns of nested defs / lambdas do not count
+        if not isinstance(s, (ast.FunctionDef, ast.AsyncFunctionDef, ast.ClassDef)):
+            walk(s)
     return out
 
 
@@ -121,10 +127,18 @@ def _classify_ESAG(fn) -> Optional[Tuple[str, List[ast.stmt], Optional[ast.expr]
     """('E'|'S'|'A'|'G', statements, result expression)"""
     if isinstance(fn, ast.AsyncFunctionDef) or _has(fn, (ast.YieldFrom, ast.Await, ast.Global, ast.Nonlocal)):
         return None
-    if any(isinstance(n, (ast.FunctionDef, ast.AsyncFunctionDef, ast.ClassDef, ast.Lambda)) and n is not fn for n in ast.walk(fn)) and _has(fn, ast.Yield):
-        return None
-    if any(isinstance(n, (ast.FunctionDef, ast.AsyncFunctionDef, ast.ClassDef)) and n is not fn for n in ast.walk(fn)):
-        return None  # helpers that define closures are left alone
+    nested = [n for n in ast.walk(fn) if isinstance(n, (ast.FunctionDef, ast.AsyncFunctionDef, ast.ClassDef)) and n is not fn]
+    if nested:
+        # a helper with a closure is spliced together with it, provided the closure's own parameter names cannot be confused with
+        # the helper's parameters / locals (they are not renamed) and it is a plain function
+        own = set(_simple_params(fn) or []) | {n.id for n in ast.walk(fn) if isinstance(n, ast.Name) and isinstance(n.ctx, ast.Store)}
+        for d in nested:
+            if not isinstance(d, ast.FunctionDef) or d.decorator_list or _has(d, (ast.Yield, ast.YieldFrom)):
+                return None
+            if {a.arg for a in d.args.posonlyargs + d.args.args + d.args.kwonlyargs} & (own - {n.id for n in ast.walk(d) if isinstance(n, ast.Name) and isinstance(n.ctx, ast.Store)}):
+                return None
+            if d.args.vararg or d.args.kwarg:
+                return None
     body = _body(fn)
     if not body or len(list(ast.walk(fn))) > 1500 or sum(1 for n in ast.walk(fn) if isinstance(n, ast.stmt)) > MAX_STMTS:
         return None
@@ -205,7 +219,7 @@ def _classify(fn):
 
 
 def _contains_return(s) -> bool:
-    return any(isinstance(n, ast.Return) for n in ast.walk(s))
+    return bool(_returns([s]))
 
 
 def _classify_R(fn):
